@@ -140,7 +140,9 @@ def ball_queries(ctx):
         made += 1
         sess = [s for s in c["sess"] if s["ix"] in ("ball", "ball_d", "ball_n") and s["leaf"] != 0]
         for s in r.sample(sess, min(2, len(sess))):
-            for k in r.sample(c["ks"], min(2, len(c["ks"]))):
+            # C07 encodes huge k (usize::MAX, 2^32, ...) as negative codes since its round 5; X09Ball models k in 0..n+1 only
+            ks = [k for k in c["ks"] if k >= 0]
+            for k in r.sample(ks, min(2, len(ks))):
                 qs.append({"kind": "ballq", "inp": {"n": c["n"], "dim": c["dim"], "sc": c["sc"], "pts": c["pts"], "q": c["q"],
                                                     "metric": c["metric"], "ix": s["ix"], "ft": s["ft"], "leaf": s["leaf"],
                                                     "lay": s["lay"], "mode": "knn", "k": k, "r8": -1}})
